@@ -617,6 +617,16 @@ func init() {
 							Input: map[string]any{"canonical": p, "layout": string(lay), "mask": fmt.Sprintf("%010b", mask)}, Expect: base.Obs.Class + " / same tree", Got: c.Obs.Class + " " + c.Obs.Err})
 					}
 				}
+				// the same layout as a file: ParseFile gives the tree of the file's bytes
+				if k == 8 || k == 3 || k%6 == 5 {
+					if fo, ferr := parseFileObs(lay); ferr == nil {
+						sum.Distribution["layouts parsed through ParseFile"]++
+						if (fo.Class != "ok" || fo.Ser != base.Obs.Ser) && len(sum.OracleFails) < 5 {
+							sum.OracleFails = append(sum.OracleFails, OracleFail{What: "a layout of the program, read through ParseFile, parses differently from the canonical rendering",
+								Input: map[string]any{"canonical": p, "layout": string(lay), "mask": fmt.Sprintf("%010b", mask)}, Expect: base.Obs.Class + " / same tree", Got: fo.Class + " " + fo.Err})
+						}
+					}
+				}
 				if rng.chance(1, 5) {
 					coq = append(coq, c)
 				}
